@@ -65,7 +65,8 @@ CONSTANTS
     QDefaultSync,   \* Multimodal.Request(default mode) uses the sync pool even on an async node
     QHeaderIgnored  \* doParse passes INSERT_MODE_SYNC whatever X-Async-Insert says
 
-W     == IF ParallelNum <= 0 THEN 1 ELSE ParallelNum      \* impl.New...InsertService clamps
+Clamp(p) == IF p <= 0 THEN 1 ELSE p                       \* impl.New...InsertService: `if opts.ParallelNum <= 0`
+W     == Clamp(ParallelNum)                               \* workers per pool: never zero
 WIdx  == 1..W
 Modes == {"sync", "async"}
 Svc   == Nodes \X Kinds                                   \* one InsertServiceV2Multimodal
